@@ -32,9 +32,11 @@ func (c *Conversation) receiveUnit(m ValidMessage, forgetFragments bool) (plain 
 		shouldForgetFragment = false
 		c.fragmentationContext, err = c.receiveFragment(c.fragmentationContext, message)
 		if fragmentsFinished(c.fragmentationContext) {
-			// a completed message is processed once: later (ignored) fragments must not find it again
-			defer func() { c.fragmentationContext = forgetFragment() }()
-			return c.withInjectionsPlain(c.receiveUnit(c.fragmentationContext.frag, false))
+			// a completed message is processed once: it is taken out of the context before it is processed, so that
+			// neither later (ignored) fragments nor a completed message that itself looks like a fragment find it again
+			whole := c.fragmentationContext.frag
+			c.fragmentationContext = forgetFragment()
+			return c.withInjectionsPlain(c.receiveUnit(whole, false))
 		}
 	case msgGuessUnknown:
 		c.messageEvent(MessageEventReceivedMessageUnrecognized)
